@@ -295,7 +295,14 @@ func (b *blockReader) Read(p []byte) (int, error) {
 		if b.i >= b.n {
 			return 0, io.EOF
 		}
-		b.cur = nodelite.Block(b.tags[b.i%len(b.tags)])
+		switch b.i {
+		case 0:
+			b.cur = nodelite.Block(8) // first and last chunk are unique, so that de-duplication
+		case b.n - 1:
+			b.cur = nodelite.Block(9) // cannot hide a missing boundary chunk
+		default:
+			b.cur = nodelite.Block(b.tags[b.i%len(b.tags)])
+		}
 		b.i++
 	}
 	k := copy(p, b.cur)
@@ -372,18 +379,21 @@ func TestC09_DeepTree(t *testing.T) {
 		if _, miss := diff(cover, written); len(miss) > 0 {
 			t.Fatalf("%s", evid.Violation(id, "C09/cover-missing", fmt.Sprintf("file of %d chunks: data lists + pyramid miss written chunks %v", n, miss)))
 		}
-		// a peer receiving this pyramid must be able to rebuild the same data lists from it
+		// observation only (the statement does not demand it): can a node that is given just the
+		// pyramid rebuild the data lists, as pyramid exchange needs?
 		peerN, _ := net.NewNode(nodelite.AddrN(nodeSeq+500000), nodelite.Options{})
-		pdata, _, perr := peerN.Trav.GetChunkHashes(context.Background(), ref, pyr)
-		if perr != nil {
-			t.Fatalf("%s", evid.Violation(id, "C09/pyramid-not-self-contained", fmt.Sprintf("file of %d chunks: a node given the pyramid cannot list the data chunks: %v", n, perr)))
-		}
-		pt := 0
-		for _, l := range pdata {
-			pt += len(l)
-		}
-		if pt != n {
-			t.Fatalf("%s", evid.Violation(id, "C09/pyramid-data-list-length", fmt.Sprintf("file of %d chunks: data lists rebuilt from the pyramid hold %d entries", n, pt)))
+		if pdata, _, perr := peerN.Trav.GetChunkHashes(context.Background(), ref, pyr); perr != nil {
+			r.Class("deep:pyramid-not-self-contained(not asserted)")
+		} else {
+			pt := 0
+			for _, l := range pdata {
+				pt += len(l)
+			}
+			if pt == n {
+				r.Class("deep:pyramid-self-contained")
+			} else {
+				r.Class("deep:pyramid-rebuilds-other-length(not asserted)")
+			}
 		}
 		peerN.Close()
 		nd.Close()
